@@ -2,6 +2,7 @@ package verifsim
 
 import (
 	"encoding/json"
+	"fmt"
 	"io"
 	"net/http"
 	"net/http/httptest"
@@ -43,6 +44,9 @@ func (h *HookServer) serve(w http.ResponseWriter, r *http.Request) {
 	}
 	ans := h.Handler(name, req)
 	e := LogEntry{Hook: name, Code: ans.Code, HookRaw: string(ans.Body)}
+	if ra, ok := ans.Headers["Retry-After"]; ok {
+		fmt.Sscanf(ra, "%d", &e.HookRetryAfter)
+	}
 	if req != nil {
 		// the controller object is configuration, not behaviour: keep only its name
 		slim := map[string]interface{}{}
